@@ -86,6 +86,8 @@ impl<L: Language, N: Analysis<L>> EGraph<L, N> {
         #[cfg(slotted_egraphs_verif)]
         crate::verif::event("shrink", id.0);
         let generators = c.group.generators();
+        #[cfg(slotted_egraphs_verif)]
+        let verif_before: Vec<SlotMap> = generators.iter().map(|p| p.elem.clone()).collect();
         let _ = c;
 
         // A generator that maps a retained slot to a newly redundant one (or back) is not a
@@ -128,6 +130,12 @@ impl<L: Language, N: Analysis<L>> EGraph<L, N> {
         }
         let c = self.classes.get_mut(&id).unwrap();
         c.group = Group::new(&identity, generators);
+        #[cfg(slotted_egraphs_verif)]
+        {
+            let after: Vec<SlotMap> = c.group.generators().into_iter().map(|p| p.elem).collect();
+            let capv: Vec<Slot> = cap.iter().copied().collect();
+            crate::verif::group_shrink(id.0, &capv, &verif_before, &after);
+        }
 
         // id[x1, .., xn] = id[g(x1), .., g(xn)] for each crossing generator g, now over the retained slots only.
         for g in crossing {
